@@ -1389,14 +1389,18 @@ impl Gen<'_> {
     fn plan_functions(&mut self) {
         let want = self.profile.funcs_per_block_x10;
         let mut n = 0;
-        while n < 3 && self.depth < self.profile.max_depth && self.tape.chance(want, 10 + 8 * self.depth + 4 * n) {
+        // the prune profile wants recursion cycles of three and four functions (interprocedural
+        // summaries need more than one pass over such a component)
+        let big_groups = self.profile.w_illtyped_dead > 0;
+        let max_n = if big_groups { 4 } else { 3 };
+        while n < max_n && self.depth < self.profile.max_depth && self.tape.chance(want, 10 + 8 * self.depth + 4 * n) {
             n += 1;
         }
         if n == 0 {
             return;
         }
         let ctx = self.fn_stack.len() - 1;
-        let mutual = n >= 2 && self.tape.chance(1, 3);
+        let mutual = n >= 2 && (if big_groups && n >= 3 { self.tape.chance(3, 4) } else { self.tape.chance(1, 3) });
         let group = if mutual {
             self.next_group += 1;
             self.features.mutual_groups += 1;
